@@ -463,6 +463,14 @@ Proof.
   apply (Forall_impl _ (P := item_good st)); [|exact Hall]. intros it. apply item_good_le. exact Hle.
 Qed.
 
+Lemma tree_items_ok_le : forall st st' d, store_le st st' -> tree_items_ok st d -> tree_items_ok st' d.
+Proof.
+  intros st st' d Hle (items & Hp & Hall). exists items. split; [exact Hp|].
+  apply Forall_forall. intros [[mode name] cid] Hin. rewrite Forall_forall in Hall. specialize (Hall _ Hin).
+  cbv beta iota in Hall |- *.
+  destruct (bytes_eqb mode mode_dir); [apply (tree_ok_le _ _ _ Hle Hall) | apply (blob_ok_le _ _ _ Hle Hall)].
+Qed.
+
 (** ** the invariant *)
 Definition entry_good (st : store) (e : entry) : Prop := blob_ok st (e_id e) /\ valid_entry e.
 
@@ -863,7 +871,7 @@ Proof.
     + inversion Hwi as [|? ? Hn Hne Hsub]; subst. split; [exact Hn|].
       change (bytes_eqb mode_dir mode_dir) with true. cbv iota.
       exists (ser sub), (map triple sub). split; [|split].
-      * apply Hsubs. apply (in_dir_subs n sub its Hi).
+      * apply Hsubs. apply (proj1 (in_dir_subs n sub its Hi)).
       * apply parse_items_ser; [exact Hsub|]. pose proof (ser_length sub Hsub). lia.
       * destruct sub; [contradiction | discriminate].
 Qed.
@@ -988,7 +996,9 @@ Proof.
   pose proof (parse_items_id_len _ _ _ Hp) as Hlen.
   clear Hp. revert ns H. induction items as [|[[mode name] id] r IHr]; intros ns H.
   - injection H as <-. constructor.
-  - inversion Hall as [|? ? [Hn Hit] Hr]; subst. inversion Hlen as [|? ? Hl Hlr]; subst. cbn [snd] in Hl.
+  - inversion Hall as [|? ? Hit0 Hr]; subst.
+    change (valid_comp name /\ if bytes_eqb mode mode_dir then nonempty_tree st id else blob_ok st id) in Hit0.
+    destruct Hit0 as [Hn Hit]. inversion Hlen as [|? ? Hl Hlr]; subst. cbn [snd] in Hl.
     cbn [wk_go] in H. destruct (bytes_eqb mode mode_dir).
     + destruct Hit as (d' & its' & Hk & Hp' & Hne). rewrite Hk in H.
       destruct (walk_tree f st d') as [ch|] eqn:Ew; [|discriminate H].
@@ -1067,8 +1077,1160 @@ Proof.
   apply beqb_eq in Ec. subst c.
   assert (Hps : p ++ s = rev l ++ [c_cr]).
   { rewrite <- (rev_involutive (p ++ s)), E. reflexivity. }
-  destruct (exists_last (l := s)) as [(s0 & x & ->)|]; [| | ].
-  - intro Hs. subst s. rewrite app_nil_r in Hps. rewrite Hps, last_last in Hlast. apply Hlast. reflexivity.
-  - rewrite app_assoc in Hps. apply app_inj_tail in Hps. destruct Hps as [Hps _].
+  destruct s as [|y s1].
+  - exfalso. rewrite app_nil_r in Hps. rewrite Hps, last_last in Hlast. apply Hlast. reflexivity.
+  - destruct (@exists_last _ (y :: s1)) as (s0 & x & Hs); [discriminate|]. rewrite Hs in *.
+    rewrite app_assoc in Hps. apply app_inj_tail in Hps. destruct Hps as [Hps _].
     exists s0. rewrite <- Hps. reflexivity.
 Qed.
+
+Lemma tail_headers : forall a cm rest c0 c' r,
+  ~ In c_nl a -> ~ In c_nl cm ->
+  parse_headers (scan_lines (str "author "%string ++ a ++ [c_nl] ++ str "committer "%string ++ cm ++ [c_nl] ++ [c_nl] ++ rest)) c0
+    = Some (c', r) ->
+  c_tree c' = c_tree c0 /\ c_parents c' = c_parents c0.
+Proof.
+  intros a cm rest c0 c' r Ha Hc H.
+  replace (str "author "%string ++ a ++ [c_nl] ++ str "committer "%string ++ cm ++ [c_nl] ++ [c_nl] ++ rest)
+    with ((str "author "%string ++ a) ++ c_nl :: (str "committer "%string ++ cm) ++ c_nl :: c_nl :: rest) in H
+    by (rewrite <- !app_assoc; reflexivity).
+  unfold scan_lines in H.
+  rewrite scan_lines_aux_app_nl in H
+    by (apply notin_app; [reflexivity | exact Ha]).
+  rewrite scan_lines_aux_app_nl in H
+    by (apply notin_app; [reflexivity | exact Hc]).
+  change (scan_lines_aux [] (c_nl :: rest)) with ([] :: scan_lines_aux [] rest) in H.
+  change (rev (@nil byte)) with (@nil byte) in H. rewrite !app_nil_l in H.
+  destruct (drop_cr_prefix (str "author "%string) a) as [a' Ea];
+    [discriminate | intro X; vm_compute in X; discriminate X |].
+  destruct (drop_cr_prefix (str "committer "%string) cm) as [cm' Ec];
+    [discriminate | intro X; vm_compute in X; discriminate X |].
+  rewrite Ea, Ec in H. rewrite parse_headers_author in H.
+  destruct (read_sign a') as [sa|]; [|discriminate H].
+  rewrite parse_headers_committer in H.
+  destruct (read_sign cm') as [sc|]; [|discriminate H].
+  rewrite parse_headers_blank in H. injection H as <- _. split; reflexivity.
+Qed.
+
+Lemma commit_text_parse : forall tree parent a cm msg c,
+  ~ In c_nl a -> ~ In c_nl cm -> length tree = 20 ->
+  (forall p, parent = Some p -> length p = 20) ->
+  parse_commit (commit_text tree (option_map hex parent) a cm msg) = Some c ->
+  c_tree c = tree /\ c_parents c = parent_list parent.
+Proof.
+  intros tree parent a cm msg c Ha Hc Htree Hparent H. unfold parse_commit in H.
+  destruct (parse_headers (scan_lines (commit_text tree (option_map hex parent) a cm msg))
+              (mkCommit [] [] None None [])) as [[c1 ml]|] eqn:E; [|discriminate H].
+  injection H as <-. cbn [c_tree c_parents]. unfold commit_text in E.
+  rewrite (scan_hex_line (str "tree "%string) tree _ eq_refl eq_refl) in E.
+  rewrite parse_headers_tree, (read_hash_hex tree Htree) in E.
+  cbn [c_tree c_parents c_author c_committer c_msg] in E.
+  destruct parent as [p|]; cbn [option_map parent_list] in *.
+  - rewrite <- !app_assoc in E.
+    rewrite (scan_hex_line (str "parent "%string) p _ eq_refl eq_refl) in E.
+    rewrite parse_headers_parent, (read_hash_hex p (Hparent p eq_refl)) in E.
+    cbn [c_tree c_parents c_author c_committer c_msg] in E.
+    apply tail_headers in E; [|assumption|assumption]. exact E.
+  - rewrite app_nil_l in E.
+    apply tail_headers in E; [|assumption|assumption]. exact E.
+Qed.
+
+Lemma dec_no_nl : forall n, ~ In c_nl (dec n).
+Proof. intro n. apply dec_no_byte. reflexivity. Qed.
+
+Lemma dec2_no_nl : forall n, ~ In c_nl (dec2 n).
+Proof.
+  intro n. unfold dec2. destruct (N.ltb n 10).
+  - intros [H|H]; [discriminate H | exact (dec_no_nl n H)].
+  - apply dec_no_nl.
+Qed.
+
+Lemma sign_string_nonl : forall n e t off, ~ In c_nl n -> ~ In c_nl e -> ~ In c_nl (sign_string n e t off).
+Proof.
+  intros n e t off Hn He. unfold sign_string, tz_string. intro H.
+  repeat (apply in_app_or in H; destruct H as [H|H]); try contradiction.
+  - destruct H as [H|[H|[]]]; discriminate H.
+  - destruct H as [H|[H|[]]]; discriminate H.
+  - destruct (Z.ltb t 0); [destruct H as [H|H]; [discriminate H|]|]; exact (dec_no_nl _ H).
+  - destruct H as [H|[]]; discriminate H.
+  - destruct (Z.leb 0 off); destruct H as [H|[]]; discriminate H.
+  - exact (dec2_no_nl _ H).
+  - exact (dec2_no_nl _ H).
+Qed.
+
+(* ================================================================== *)
+(** * B1. The program logic instantiated *)
+
+Definition same_meta (w0 w : world) : Prop :=
+  w_inited w = w_inited w0 /\ w_head w = w_head w0 /\ w_refs w = w_refs w0 /\
+  w_index w = w_index w0 /\ w_lcfg w = w_lcfg w0 /\ w_gcfg w = w_gcfg w0 /\
+  (~ Bad w -> ~ Bad w0).
+
+Lemma same_meta_refl : forall w, same_meta w w.
+Proof. intro w. unfold same_meta. tauto. Qed.
+
+Definition retrievable (w : world) (acc : list bytes) : Prop :=
+  ~ Bad w -> forall x, In x acc -> get_kind (w_objs w) KTree (obj_id KTree x) = Some x.
+
+Lemma not_bad_put : forall id p w, ~ Bad (apply_effect (EPutObj id p) w) ->
+  ~ Bad w /\ st_collides (w_objs w) id p = false /\ (lenN p < 2 ^ 63)%N.
+Proof.
+  intros id p w Hnb. split; [intro X; apply Hnb; apply bad_sticky; exact X|]. split.
+  - destruct (st_collides (w_objs w) id p) eqn:E; [|reflexivity].
+    exfalso. apply Hnb. left. rewrite w_coll_EPutObj, E. apply orb_true_r.
+  - destruct (N.ltb (lenN p) (2 ^ 63)) eqn:E; [apply N.ltb_lt in E; exact E|].
+    apply N.ltb_ge in E. exfalso. apply Hnb. right. exists id, p.
+    rewrite w_objs_EPutObj, st_lookup_set_same. split; [reflexivity | exact E].
+Qed.
+
+Lemma put_small : forall k d w, ~ Bad (apply_effect (EPutObj (obj_id k d) (payload k d)) w) -> (lenN d < 2 ^ 63)%N.
+Proof.
+  intros k d w Hnb. destruct (not_bad_put _ _ _ Hnb) as (_ & _ & Hs).
+  pose proof (lenN_payload k d). lia.
+Qed.
+
+Lemma put_get : forall k d w, ~ Bad (apply_effect (EPutObj (obj_id k d) (payload k d)) w) ->
+  get_obj (w_objs (apply_effect (EPutObj (obj_id k d) (payload k d)) w)) (obj_id k d) = Some (k, d).
+Proof. intros k d w Hnb. rewrite w_objs_EPutObj. apply get_put. apply (put_small _ _ _ Hnb). Qed.
+
+Lemma put_store_le : forall id p w, ~ Bad (apply_effect (EPutObj id p) w) ->
+  store_le (w_objs w) (w_objs (apply_effect (EPutObj id p) w)).
+Proof.
+  intros id p w Hnb. destruct (not_bad_put _ _ _ Hnb) as (_ & Hc & _).
+  rewrite w_objs_EPutObj. apply put_le. exact Hc.
+Qed.
+
+Lemma retrievable_put : forall w acc a, retrievable w acc ->
+  retrievable (apply_effect (EPutObj (obj_id KTree a) (payload KTree a)) w) (acc ++ [a]).
+Proof.
+  intros w acc a Hr Hnb x Hin. destruct (not_bad_put _ _ _ Hnb) as (Hnb0 & _ & _).
+  apply in_app_or in Hin. destruct Hin as [Hin|[<-|[]]].
+  - apply (get_kind_le _ _ _ _ _ (put_store_le _ _ _ Hnb)). apply Hr; assumption.
+  - apply get_kind_iff. apply put_get. exact Hnb.
+Qed.
+
+Lemma same_meta_put : forall w0 w id p, same_meta w0 w -> same_meta w0 (apply_effect (EPutObj id p) w).
+Proof.
+  intros w0 w id p (H1 & H2 & H3 & H4 & H5 & H6 & H7). unfold same_meta. autorewrite with wfields.
+  repeat (split; [assumption|]). intro Hnb. apply H7. intro X. apply Hnb. apply bad_sticky. exact X.
+Qed.
+
+Lemma put_trees_hoare : forall b w0 l acc,
+  (~ Bad w0 -> ready_list (map e_id (idx_of w0)) acc l) ->
+  hoare (CInv b) (CG b) (fun w => same_meta w0 w /\ retrievable w acc)
+        (iterM (fun d => put_obj KTree d ;;; ret tt) l)
+        (fun _ w => same_meta w0 w /\ retrievable w (acc ++ l)).
+Proof.
+  intros b w0. induction l as [|a l IH]; intros acc Hr.
+  - cbn [iterM]. apply hoare_ret. intros w _ H. rewrite app_nil_r. exact H.
+  - cbn [iterM]. apply hoare_bind with (R := fun _ w => same_meta w0 w /\ retrievable w (acc ++ [a])).
+    + apply hoare_world. intros w Hi [Hm Hret]. unfold put_obj. hsteps.
+      * apply emit_ok; [|assumption]. intros Hnb Hnb0 Hg Hh. cbn [Gc].
+        exists KTree, a. split; [reflexivity|]. split; [reflexivity|]. intros _. cbn [obj_good].
+        destruct Hm as (_ & _ & _ & Hidx & _ & _ & Hlater).
+        destruct (Hr (Hlater Hnb0)) as [(sub & -> & Hwf & Hleaves & Hsubs) _].
+        apply ser_tree_good; [exact Hwf | |].
+        -- apply Forall_forall. intros x Hx. apply Hleaves in Hx. apply in_map_iff in Hx.
+           destruct Hx as (e & <- & He). pose proof (g_idx w Hg) as Hgi. rewrite Forall_forall in Hgi.
+           unfold idx_of in Hgi. rewrite Hidx in Hgi. apply (Hgi e He).
+        -- intros x Hx. apply (Hret Hnb0). apply Hsubs. exact Hx.
+      * split; [apply same_meta_put; exact Hm | apply retrievable_put; exact Hret].
+    + intros _. replace (acc ++ a :: l) with ((acc ++ [a]) ++ l) by (rewrite <- app_assoc; reflexivity).
+      apply IH. intro Hnb. apply (Hr Hnb).
+Qed.
+
+(* the tree-writing prefix of [commit] and [write-tree] *)
+Lemma write_trees_at : forall b w tr B (g : unit -> M B) Q,
+  write_tree_top (idx_of w) = Some tr ->
+  (forall w', CInv b w' -> same_meta w w' -> retrievable w' (snd tr ++ [fst tr]) ->
+     hoare (CInv b) (CG b) (eq w') (g tt) Q) ->
+  hoare (CInv b) (CG b) (eq w)
+        (bind (iterM (fun d => put_obj KTree d ;;; ret tt) (snd tr ++ [fst tr])) g) Q.
+Proof.
+  intros b w tr B g Q Htr Hg. apply at_Inv. intro Hi.
+  apply at_bind_call with (P := fun w' => same_meta w w' /\ retrievable w' [])
+                          (R := fun _ w' => same_meta w w' /\ retrievable w' ([] ++ snd tr ++ [fst tr])).
+  - apply put_trees_hoare. intro Hnb. destruct (Hi Hnb) as [Hgood _].
+    apply write_tree_top_ready; [|exact Htr].
+    apply (Forall_impl _ (P := entry_good (w_objs w))); [|apply (g_idx w Hgood)]. intros e [_ H]. exact H.
+  - intros _. split; [apply same_meta_refl|]. intros _ x [].
+  - intros [] w' Hi' [Hm Hr]. apply Hg; assumption.
+Qed.
+
+Lemma cmd_write_tree_conn : forall b, emits (CInv b) (CG b) cmd_write_tree.
+Proof.
+  intro b. hinline. hsteps.
+  apply write_trees_at; [assumption|]. intros w' Hi' Hm Hr. hsteps. exact Logic.I.
+Qed.
+
+(* ================================================================== *)
+(** * B2. Every command only emits effects satisfying [Gc] *)
+
+Definition later (w w' : world) : Prop := ~ Bad w' -> ~ Bad w.
+Lemma later_refl : forall w, later w w.
+Proof. intros w H. exact H. Qed.
+Lemma later_step : forall w w' e, later w w' -> later w (apply_effect e w').
+Proof. intros w w' e H Hnb. apply H. intro X. apply Hnb. apply bad_sticky. exact X. Qed.
+
+(* at the last effect of a procedure the goal also carries the postcondition *)
+Lemma emit_ok_last : forall b w e (Q : Prop),
+  (~ Bad (apply_effect e w) -> ~ Bad w -> GoodNH w -> (b = true \/ HeadOk w) -> Gc b w e) ->
+  CInv b w -> Q -> CG b w e /\ CInv b (apply_effect e w) /\ Q.
+Proof. intros b w e Q H Hi Hq. destruct (emit_ok b w e H Hi) as [H1 H2]. auto. Qed.
+
+(* an effect with nothing to show *)
+Ltac emit_triv := apply emit_ok; [intros; exact Logic.I | assumption].
+
+Definition ctx_rel (w : world) (c : ctx) : Prop :=
+  cfg_of (w_lcfg w) = Some (x_l c) /\ cfg_of (w_gcfg w) = Some (x_g c) /\
+  match x_headc c with
+  | Some (hid, cm) => am_get (w_refs w) (w_head w) = Some hid /\ get_commit (w_objs w) hid = Some cm
+  | None => am_get (w_refs w) (w_head w) = None
+  end.
+
+Lemma load_ctx_at : forall b w B (f : ctx -> M B) Q,
+  (forall c, ctx_rel w c -> hoare (CInv b) (CG b) (eq w) (f c) Q) ->
+  hoare (CInv b) (CG b) (eq w) (bind load_ctx f) Q.
+Proof.
+  intros b w B f Q H. unfold load_ctx. hsteps.
+  - apply H. unfold ctx_rel. cbn [x_l x_g x_headc]. repeat split; assumption.
+  - apply H. unfold ctx_rel. cbn [x_l x_g x_headc]. repeat split; assumption.
+Qed.
+
+Lemma cmd_init_conn : forall b, emits (CInv b) (CG b) cmd_init.
+Proof.
+  intro b. hinline. hsteps.
+  - apply emit_ok; [|assumption]. intros. cbn [Gc].
+    match goal with Hg : negb (w_inited _) = true |- _ => apply negb_true_iff in Hg; exact Hg end.
+  - exact Logic.I.
+Qed.
+
+Lemma gc_cfg_written : forall c cf, cfg_of (cfg_written c) = Some cf -> cfg_nonl cf.
+Proof. intros c cf H. cbn [cfg_written cfg_of] in H. apply (cfg_load_nonl _ _ H). Qed.
+
+Lemma cmd_config_conn : forall b c global args w,
+  hoare (CInv b) (CG b) (eq w) (cmd_config c global args) (fun _ _ => True).
+Proof.
+  intros b c global args w. hinline. hsteps; try exact Logic.I.
+  all: try (apply emit_ok; [|assumption]; intros; cbn [Gc]; first [apply gc_cfg_written | idtac]).
+  all: try (intros cf Hcf; cbn [cfg_of] in Hcf; injection Hcf as <-; constructor).
+Qed.
+
+Lemma idx_update_good : forall st es id p,
+  Forall (entry_good st) es -> entry_good st (mkE id p) ->
+  Forall (entry_good st) (match idx_update es id p with Some i => i | None => es end).
+Proof.
+  intros st es id p Hes He. destruct (idx_update es id p) as [i|] eqn:E; [|exact Hes].
+  apply Forall_forall. intros x Hx. destruct (idx_update_mem _ _ _ _ _ E Hx) as [->|Hin]; [exact He|].
+  rewrite Forall_forall in Hes. apply (Hes x Hin).
+Qed.
+
+Lemma idx_delete_good : forall st es p i,
+  Forall (entry_good st) es -> idx_delete es p = Some i -> Forall (entry_good st) i.
+Proof.
+  intros st es p i Hes E. apply Forall_forall. intros x Hx.
+  rewrite Forall_forall in Hes. apply (Hes x (idx_delete_mem _ _ _ _ E Hx)).
+Qed.
+
+Lemma obj_id_length : forall k d, length (obj_id k d) = 20.
+Proof. intros k d. unfold obj_id. apply sha1_length. Qed.
+
+(* the body shared by the two branches of [add_file] *)
+Lemma add_file_body : forall b w p data,
+  am_get (w_files w) p = Some data ->
+  hoare (CInv b) (CG b) (eq w)
+    (put_obj KBlob data ;;;
+     emit (ESetIndex (match idx_update (idx_of w) (obj_id KBlob data) p with Some i => i | None => idx_of w end)))
+    (fun _ _ => True).
+Proof.
+  intros b w p data Hf. unfold put_obj. hsteps.
+  - apply emit_ok; [|assumption]. intros. cbn [Gc]. exists KBlob, data.
+    split; [reflexivity|]. split; [reflexivity|]. intros _. exact Logic.I.
+  - apply emit_ok_last; [|assumption|exact Logic.I]. intros Hnb Hnb0 Hg Hh. cbn [Gc].
+    pose proof (g_idx _ Hg) as Hgi. unfold idx_of in Hgi at 1. rewrite w_index_EPutObj in Hgi. fold (idx_of w) in Hgi.
+    apply idx_update_good; [exact Hgi|]. split; cbn [e_id e_path].
+    + exists data. apply get_kind_iff. apply put_get. exact Hnb0.
+    + split; [apply obj_id_length|]. cbn [e_path].
+      pose proof (g_wt _ Hg) as Hwt. rewrite w_files_EPutObj in Hwt. rewrite Forall_forall in Hwt.
+      apply (Hwt (p, data)). apply am_get_In. exact Hf.
+Qed.
+
+Lemma add_file_conn : forall b p, emits (CInv b) (CG b) (add_file p).
+Proof.
+  intros b p. hinline. hsteps; try exact Logic.I.
+  - apply add_file_body. assumption.
+  - apply add_file_body. assumption.
+Qed.
+
+Lemma emits_at : forall b A (m : M A) w, emits (CInv b) (CG b) m ->
+  hoare (CInv b) (CG b) (eq w) m (fun _ _ => True).
+Proof. intros b A m w H. apply hoare_at with (P := fun _ => True); [exact H | exact Logic.I]. Qed.
+
+Ltac gc_idx_delete :=
+  intros ?Hnb ?Hnb0 ?Hg ?Hh; cbn [Gc];
+  match goal with
+  | He : idx_delete _ _ = Some _, Hg : GoodNH _ |- _ => apply (idx_delete_good _ _ _ _ (g_idx _ Hg) He)
+  end.
+
+Lemma cmd_add_conn : forall b c args, emits (CInv b) (CG b) (cmd_add c args).
+Proof.
+  intros b c args. hinline. hsteps.
+  apply at_bind_iterM with (J := fun _ => True).
+  - intros _. exact Logic.I.
+  - intros a w' _ Hi' _. hsteps; try exact Logic.I.
+    all: try (apply emits_at; apply add_file_conn).
+    all: try (apply emit_ok_last; [gc_idx_delete | assumption | exact Logic.I]).
+    apply at_iterM with (J := fun _ => True); [intros _; exact Logic.I | | intros; exact Logic.I].
+    intros f w'' _ _ _. hsteps; try exact Logic.I.
+    apply emits_at; apply add_file_conn.
+  - intros w' _ _. hsteps. exact Logic.I.
+Qed.
+
+Lemma rm_one_conn : forall b p, emits (CInv b) (CG b) (rm_one p).
+Proof.
+  intros b p. hinline. hsteps; try exact Logic.I.
+  all: try emit_triv.
+  all: try (apply emit_ok_last; [gc_idx_delete | assumption | exact Logic.I]).
+Qed.
+
+Lemma cmd_rm_conn : forall b args, emits (CInv b) (CG b) (cmd_rm args).
+Proof.
+  intros b args. hinline. hsteps.
+  apply at_bind_iterM with (J := fun _ => True).
+  - intros _. exact Logic.I.
+  - intros a w' _ Hi' _. hsteps; try exact Logic.I.
+    + apply emits_at. apply rm_one_conn.
+    + apply at_iterM with (J := fun _ => True); [intros _; exact Logic.I | | intros; exact Logic.I].
+      intros f w'' _ _ _. apply emits_at. apply rm_one_conn.
+  - intros w' _ _. hsteps. exact Logic.I.
+Qed.
+
+Lemma head_update_conn : forall b name, emits (CInv b) (CG b) (head_update name).
+Proof.
+  intros b name. hinline. hsteps; try exact Logic.I.
+  apply emit_ok; [|assumption]. intros Hnb Hnb0 Hg Hh. cbn [Gc]. right.
+  apply am_mem_true. eexists. eassumption.
+Qed.
+
+Lemma cmd_update_ref_conn : forall b args w, w_inited w = true ->
+  hoare (CInv b) (CG b) (eq w) (cmd_update_ref args) (fun _ _ => True).
+Proof.
+  intros b args w Hin. hinline. hsteps; try exact Logic.I.
+  - apply emit_ok; [|assumption]. intros Hnb Hnb0 Hg Hh. cbn [Gc].
+    split; [exact Hin|]. split; [eexists; eassumption|].
+    intro Hr. match goal with Hm : am_mem (w_refs w) _ = true |- _ => rewrite Hr in Hm; discriminate Hm end.
+  - apply at_bind_emits; [apply head_update_conn|]. intros ? w' Hi'. hsteps. exact Logic.I.
+Qed.
+
+Lemma head_tree_nodes_conn : forall b c, emits (CInv b) (CG b) (head_tree_nodes c).
+Proof. intros b c. hinline. hsteps; exact Logic.I. Qed.
+
+Lemma cmd_status_conn : forall b c, emits (CInv b) (CG b) (cmd_status c).
+Proof.
+  intros b c. hinline. hsteps.
+  apply at_bind_emits; [apply head_tree_nodes_conn|]. intros ns w' Hi'. hsteps. exact Logic.I.
+Qed.
+
+Lemma cmd_log_conn : forall b c n, emits (CInv b) (CG b) (cmd_log c n).
+Proof. intros b c n. hinline. hsteps; exact Logic.I. Qed.
+
+Lemma cmd_reflog_conn : forall b, emits (CInv b) (CG b) cmd_reflog.
+Proof. intros b. hinline. hsteps; exact Logic.I. Qed.
+
+Lemma cmd_cat_file_conn : forall b t p args, emits (CInv b) (CG b) (cmd_cat_file t p args).
+Proof. intros b t p args. hinline. hsteps; exact Logic.I. Qed.
+
+Lemma cmd_ls_files_conn : forall b s, emits (CInv b) (CG b) (cmd_ls_files s).
+Proof. intros b s. hinline. hsteps; exact Logic.I. Qed.
+
+(* the two commands with a local recursive loop: it performs no effect *)
+Ltac pure_fix_loop b :=
+  match goal with
+  | |- hoare _ _ (eq ?w0) (?g ?args) _ =>
+      let Hgen := fresh "Hgen" in
+      assert (Hgen : hoare (CInv b) (CG b) (eq w0) (g args) (fun _ w' => w' = w0));
+      [ induction args as [|a r IH]; cbv beta iota; hsteps; try reflexivity;
+        apply at_bind with (R := fun _ w' => w' = w0); [exact IH|];
+        let rest := fresh "rest" in let w1 := fresh "w1" in
+        intros rest w1 _ ->; hsteps; reflexivity
+      | apply (hoare_conseq _ _ _ _ _ _ _ _ Hgen); auto ]
+  end.
+
+Lemma cmd_hash_object_conn : forall b args, emits (CInv b) (CG b) (cmd_hash_object args).
+Proof. intros b args. hinline. hsteps. pure_fix_loop b. Qed.
+
+Lemma cmd_rev_parse_conn : forall b args, emits (CInv b) (CG b) (cmd_rev_parse args).
+Proof. intros b args. hinline. hsteps. pure_fix_loop b. Qed.
+
+Ltac solve_later := repeat apply later_step; apply later_refl.
+(* [~ Bad w0] from [~ Bad] of a world reached from [w0] by explicit effects *)
+Ltac not_bad_back w0 :=
+  match goal with
+  | Hnb : ~ Bad ?wc |- _ =>
+      let L := fresh "L" in
+      assert (L : later w0 wc) by solve_later; exact (L Hnb)
+  end.
+
+Ltac emit_with tac :=
+  first [ apply emit_ok; [tac | assumption]
+        | apply emit_ok_last; [tac | assumption | try exact Logic.I] ].
+
+Lemma wt_put_conn : forall b p data w, (~ Bad w -> valid_path p) ->
+  hoare (CInv b) (CG b) (eq w) (wt_put p data) (fun _ w' => later w w').
+Proof.
+  intros b p data w Hv. hinline. hsteps.
+  all: try emit_triv.
+  all: try (apply emit_ok_last; [intros Hnb Hnb0 Hg Hh; cbn [Gc]; apply Hv; not_bad_back w | assumption | solve_later]).
+Qed.
+
+Lemma restore_wd_conn : forall b p, emits (CInv b) (CG b) (restore_wd p).
+Proof.
+  intros b p. hinline. hsteps.
+  match goal with |- hoare _ _ (eq ?w0) (wt_put _ ?d) _ =>
+    assert (Hv : ~ Bad w0 -> valid_path p) end.
+  { intro Hnb. match goal with Hi : CInv b _ |- _ => destruct (Hi Hnb) as [Hg _] end.
+    match goal with He : get_entry _ _ = Some _ |- _ => apply get_entry_In in He; destruct He as [Hin Hp] end.
+    pose proof (g_idx _ Hg) as Hgi. rewrite Forall_forall in Hgi. destruct (Hgi _ Hin) as [_ [_ Hvp]].
+    rewrite <- Hp. exact Hvp. }
+  apply (hoare_conseq _ _ _ _ _ _ _ _ (wt_put_conn b p _ _ Hv)); auto.
+Qed.
+
+Definition NG (ns : list node) (w : world) : Prop := ~ Bad w -> Forall (node_good (w_objs w)) ns.
+
+Lemma leaf_node_good : forall st ns p n, Forall (node_good st) ns -> leaf_node ns p = Some n ->
+  entry_good st (mkE (n_id n) p).
+Proof.
+  intros st ns p n Hns H. unfold leaf_node in H.
+  destruct (get_node ns p) as [n0|] eqn:E; [|discriminate H].
+  destruct (is_leaf n0) eqn:El; [|discriminate H]. injection H as <-.
+  unfold get_node in E. destruct (get_node_good _ _ _ _ _ Hns E) as [Hn Hp].
+  destruct (node_good_leaf _ _ Hn El) as [Hb Hl].
+  split; [exact Hb|]. split; [exact Hl | exact Hp].
+Qed.
+
+Lemma NG_set_index : forall ns es w, NG ns w -> NG ns (apply_effect (ESetIndex es) w).
+Proof.
+  intros ns es w H Hnb. rewrite w_objs_ESetIndex. apply H.
+  intro X. apply Hnb. apply (proj2 (bad_not_put (ESetIndex es) w eq_refl)). exact X.
+Qed.
+
+Lemma restore_index_conn : forall b ns p,
+  hoare (CInv b) (CG b) (NG ns) (restore_index ns p) (fun _ => NG ns).
+Proof.
+  intros b ns p. apply hoare_world. intros w Hi Hng. hinline. hsteps; try assumption.
+  all: try (apply emit_ok_last; [gc_idx_delete | assumption | apply NG_set_index; exact Hng]).
+  all: apply emit_ok_last; [ | assumption | apply NG_set_index; exact Hng].
+  all: intros Hnb Hnb0 Hg Hh; cbn [Gc];
+    match goal with
+    | Hu : idx_update _ _ _ = Some ?i, Hl : leaf_node _ _ = Some _ |- Forall _ ?i =>
+        pose proof (idx_update_good _ _ _ _ (g_idx _ Hg) (leaf_node_good _ _ _ _ (Hng Hnb0) Hl)) as X;
+        rewrite Hu in X; exact X
+    end.
+Qed.
+
+Lemma head_tree_nodes_spec : forall b c w,
+  hoare (CInv b) (CG b) (eq w) (head_tree_nodes c) (fun ns w' => w' = w /\ NG ns w).
+Proof.
+  intros b c w. hinline. hsteps.
+  - split; [reflexivity|]. intro Hnb. match goal with Hi : CInv b _ |- _ => destruct (Hi Hnb) as [Hg _] end.
+    match goal with
+    | Hk : get_kind _ KTree _ = Some ?d, Hw : walk_tree _ _ ?d = Some _ |- _ =>
+        apply (walk_good _ (g_trees _ Hg) _ _ _ (g_trees _ Hg _ _ Hk) Hw)
+    end.
+  - split; [reflexivity|]. intros _. constructor.
+Qed.
+
+Lemma cmd_restore_conn : forall b c staged args, emits (CInv b) (CG b) (cmd_restore c staged args).
+Proof.
+  intros b c staged args. hinline. destruct staged; cbv beta iota.
+  - hsteps.
+    apply at_bind with (R := fun ns w' => w' = w /\ NG ns w); [apply head_tree_nodes_spec|].
+    intros ns w' _ [-> Hng]. hsteps.
+    apply at_bind_iterM with (J := NG ns).
+    + intros _. exact Hng.
+    + intros t w' _ _ Hng'. apply at_iterM with (J := NG ns); [intros _; exact Hng' | | auto].
+      intros q w'' _ _ Hng''. apply hoare_at with (P := NG ns); [apply restore_index_conn | exact Hng''].
+    + intros w' _ _. hsteps. exact Logic.I.
+  - hsteps.
+    apply at_bind_iterM with (J := fun _ => True).
+    + intros _. exact Logic.I.
+    + intros t w' _ _ _. apply at_iterM with (J := fun _ => True); [intros _; exact Logic.I | | auto].
+      intros q w'' _ _ _. apply emits_at. apply restore_wd_conn.
+    + intros w' _ _. hsteps. exact Logic.I.
+Qed.
+
+Lemma cmd_reset_conn : forall b e c soft mixed hard args w,
+  w_inited w = true -> ctx_rel w c ->
+  hoare (CInv b) (CG b) (eq w) (cmd_reset e c soft mixed hard args) (fun _ _ => True).
+Proof.
+  intros b e c soft mixed hard args w Hin Hctx. hinline. hsteps; try exact Logic.I.
+  all: try emit_triv.
+  - (* ESetRef HEAD's branch := target *)
+    apply emit_ok; [|assumption]. intros Hnb Hnb0 Hg Hh. cbn [Gc].
+    split; [exact Hin|]. split; [eexists; eassumption | intros _; reflexivity].
+  - (* ESetIndex (entries of the target's tree) *)
+    apply emit_ok; [|assumption]. intros Hnb Hnb0 Hg Hh. cbn [Gc].
+    pose proof (g_trees _ Hg) as Ht. autorewrite with wfields in Ht |- *.
+    apply flatten_good.
+    match goal with
+    | Hk : get_kind _ KTree _ = Some ?d, Hw : walk_tree _ _ ?d = Some _ |- _ =>
+        apply (walk_good _ Ht _ _ _ (Ht _ _ Hk) Hw)
+    end.
+  - (* --hard: rewrite the work tree from the new index *)
+    match goal with |- hoare _ _ (eq ?w4) (bind (iterM _ ?es) _) _ =>
+      apply at_bind_iterM with (J := fun w' => ~ Bad w' -> Forall valid_entry es) end.
+    + intros Hi4 Hnb. destruct (Hi4 Hnb) as [Hg _]. pose proof (g_idx _ Hg) as Hgi.
+      unfold idx_of in Hgi. rewrite w_index_ESetIndex in Hgi.
+      apply Forall_forall. intros x Hx. rewrite Forall_forall in Hgi. destruct (Hgi x Hx) as [_ Hv]. exact Hv.
+    + intros en w' Hen Hi' HJ. hsteps.
+      match goal with |- hoare _ _ (eq w') (wt_put ?q ?d) _ =>
+        assert (Hv : ~ Bad w' -> valid_path q) end.
+      { intro Hnb. pose proof (HJ Hnb) as Hall. rewrite Forall_forall in Hall. apply (Hall en Hen). }
+      apply (hoare_conseq _ _ _ _ _ _ _ _ (wt_put_conn b _ _ _ Hv)); [auto|].
+      intros _ w'' _ Hl Hnb. apply HJ. apply Hl. exact Hnb.
+    + intros w' _ _. hsteps. exact Logic.I.
+Qed.
+
+(* [ESetRef n hid] where [hid] is the commit the context resolved HEAD to *)
+Ltac gc_setref_head Hin Hctx c :=
+  intros ?Hnb ?Hnb0 ?Hg ?Hh; cbn [Gc];
+  let Hhc := fresh "Hhc" in let Hhead := fresh "Hhead" in let Hcm := fresh "Hcm" in
+  destruct Hctx as (_ & _ & Hhc);
+  match goal with Hx : x_headc c = Some _ |- _ => rewrite Hx in Hhc end;
+  destruct Hhc as [Hhead Hcm];
+  split; [exact Hin|]; split;
+  [eexists; exact Hcm | let Hr := fresh "Hr" in intro Hr; rewrite Hr in Hhead; discriminate Hhead].
+
+Lemma cmd_switch_conn : forall b e c args create w,
+  w_inited w = true -> ctx_rel w c ->
+  hoare (CInv b) (CG b) (eq w) (cmd_switch e c args create) (fun _ _ => True).
+Proof.
+  intros b e c args create w Hin Hctx. hinline. hsteps; try exact Logic.I.
+  all: try emit_triv.
+  all: try (apply emit_ok; [gc_setref_head Hin Hctx c | assumption]).
+  all: try (apply at_bind_emits; [apply head_update_conn|]; intros ? w' Hi'; hsteps; try exact Logic.I; try emit_triv).
+  all: try (exfalso;
+            match goal with
+            | H1 : negb (negb (is_nil ?cr) && negb (is_nil (_ :: _))) = true,
+              H2 : negb (is_nil ?cr) = true |- _ => rewrite H2 in H1; discriminate H1
+            | H1 : negb (true && negb (is_nil (_ :: _))) = true |- _ => discriminate H1
+            end).
+Qed.
+
+Lemma rename_then_mem : forall (W : world) o n,
+  am_mem (w_refs W) o = true -> am_mem (w_refs (apply_effect (ERenameRef o n) W)) n = true.
+Proof.
+  intros W o n H. rewrite w_refs_ERenameRef. apply am_mem_true in H. destruct H as [v Hv].
+  rewrite Hv. unfold am_mem. rewrite am_get_set_same. reflexivity.
+Qed.
+
+Lemma cmd_branch_conn : forall b e c args lst rename delete w,
+  (b = true \/ rename = []) -> w_inited w = true -> ctx_rel w c ->
+  hoare (CInv b) (CG b) (eq w) (cmd_branch e c args lst rename delete) (fun _ _ => True).
+Proof.
+  intros b e c args lst rename delete w Hb Hin Hctx. hinline. cbv zeta. hsteps; try exact Logic.I.
+  all: try emit_triv.
+  all: try (apply emit_ok; [gc_setref_head Hin Hctx c | assumption]).
+  all: apply emit_ok; [|assumption]; intros Hnb Hnb0 Hg Hh; cbn [Gc].
+  all: try (split; [assumption|]; destruct Hb as [Hb|Hb]; [left; exact Hb|]; exfalso;
+            match goal with Hr : negb (is_nil ?r) = true |- _ => rewrite Hb in Hr; discriminate Hr end).
+  all: try (right; apply rename_then_mem; assumption).
+  all: match goal with
+       | Hd : negb (bytes_eqb ?d ?h) = true |- ?d <> ?h =>
+           apply negb_true_iff in Hd; apply bytes_eqb_neq in Hd; exact Hd
+       end.
+Qed.
+
+Lemma commit_ok_len : forall st id, commit_ok st id -> length id = 20.
+Proof.
+  intros st id [c H]. unfold get_commit in H.
+  destruct (get_kind st KCommit id) as [d|] eqn:E; [|discriminate H].
+  apply get_kind_iff in E. apply (get_obj_id_length _ _ _ E).
+Qed.
+
+Lemma do_commit_conn : forall b e c msg w, w_inited w = true -> ctx_rel w c ->
+  hoare (CInv b) (CG b) (eq w) (do_commit e c msg) (fun _ _ => True).
+Proof.
+  intros b e c msg w Hin Hctx. hinline. hsteps.
+  apply write_trees_at; [assumption|]. intros w' Hi' Hm Hr. cbv zeta.
+  match goal with |- context [commit_text ?a ?p ?s1 ?s2 ?m] => set (data := commit_text a p s1 s2 m) end.
+  hsteps. hinline. hsteps; try exact Logic.I.
+  all: try emit_triv.
+  all: destruct Hm as (Hin' & Hhd & Hrefs & Hidx & Hlc & Hgc & Hlater).
+  - (* the commit object *)
+    apply emit_ok; [|assumption]. intros Hnb Hnb0 Hg Hh. cbn [Gc].
+    exists KCommit, data. split; [reflexivity|]. split; [reflexivity|]. intros _. cbn [obj_good].
+    intros cm Hcm. unfold data in Hcm.
+    change (match am_get (w_refs w) (w_head w) with Some id => Some (hex id) | None => None end)
+      with (option_map hex (am_get (w_refs w) (w_head w))) in Hcm.
+    destruct Hctx as (Hcl & Hcg & _). destruct (g_cfg _ Hg) as [Hn1 Hn2].
+    rewrite Hlc in Hn1. rewrite Hgc in Hn2. specialize (Hn1 _ Hcl). specialize (Hn2 _ Hcg).
+    pose proof (g_refs _ Hg) as Hgr. rewrite Hrefs in Hgr. rewrite Forall_forall in Hgr.
+    apply commit_text_parse in Hcm.
+    + destruct Hcm as [Ht Hp]. rewrite Ht, Hp. split.
+      * exists (fst a). apply (Hr Hnb0). apply in_or_app. right. left. reflexivity.
+      * destruct (am_get (w_refs w) (w_head w)) as [id|] eqn:Eh; cbn [parent_list]; [|constructor].
+        constructor; [|constructor]. apply (Hgr (w_head w, id)). apply am_get_In. exact Eh.
+    + apply sign_string_nonl; [apply user_name_nonl | apply user_email_nonl]; assumption.
+    + apply sign_string_nonl; [apply user_name_nonl | apply user_email_nonl]; assumption.
+    + apply obj_id_length.
+    + intros p Hp. apply (commit_ok_len (w_objs w')). apply (Hgr (w_head w, p)). apply am_get_In. exact Hp.
+  - (* the branch named by HEAD exists: move it *)
+    apply emit_ok; [|assumption]. intros Hnb Hnb0 Hg Hh. cbn [Gc]. autorewrite with wfields.
+    split; [rewrite Hin'; exact Hin|]. split; [|intros _; symmetry; exact Hhd].
+    match goal with Hp : parse_commit data = Some ?cm |- _ => exists cm end.
+    unfold get_commit. pose proof (put_get KCommit data w' Hnb0) as Hget. rewrite w_objs_EPutObj in Hget.
+    apply get_kind_iff in Hget. rewrite Hget. assumption.
+  - (* ... and HEAD keeps naming it *)
+    apply emit_ok_last; [|assumption|exact Logic.I]. intros Hnb Hnb0 Hg Hh. cbn [Gc]. right.
+    autorewrite with wfields. unfold am_mem. rewrite am_get_set_same. reflexivity.
+  - (* unborn branch: create the branch HEAD names *)
+    apply emit_ok; [|assumption]. intros Hnb Hnb0 Hg Hh. cbn [Gc]. autorewrite with wfields.
+    split; [rewrite Hin'; exact Hin|]. split; [|intros _; symmetry; exact Hhd].
+    match goal with Hp : parse_commit data = Some ?cm |- _ => exists cm end.
+    unfold get_commit. pose proof (put_get KCommit data w' Hnb0) as Hget. rewrite w_objs_EPutObj in Hget.
+    apply get_kind_iff in Hget. rewrite Hget. assumption.
+  - apply emit_ok_last; [|assumption|exact Logic.I]. intros Hnb Hnb0 Hg Hh. cbn [Gc]. right.
+    autorewrite with wfields. unfold am_mem. rewrite am_get_set_same. reflexivity.
+Qed.
+
+Lemma cmd_commit_conn : forall b e c msg w, w_inited w = true -> ctx_rel w c ->
+  hoare (CInv b) (CG b) (eq w) (cmd_commit e c msg) (fun _ _ => True).
+Proof.
+  intros b e c msg w Hin Hctx. hinline. hsteps.
+  - apply at_bind with (R := fun _ _ => True); [apply do_commit_conn; assumption|].
+    intros ? w' _ _. hsteps. exact Logic.I.
+  - apply at_bind with (R := fun _ w' => w' = w).
+    + apply (hoare_conseq _ _ _ _ _ _ _ _ (head_tree_nodes_spec b c w)); [auto|]. intros ? ? _ [-> _]. reflexivity.
+    + intros ns w' _ ->. hsteps.
+      apply at_bind with (R := fun _ _ => True); [apply do_commit_conn; assumption|].
+      intros ? w' _ _. hsteps. exact Logic.I.
+Qed.
+
+Definition is_rename (c : cmd) : Prop :=
+  match c with CBranch _ _ rename _ => rename <> [] | _ => False end.
+
+Theorem run_cmd_conn : forall b e c, (b = true \/ ~ is_rename c) -> emits (CInv b) (CG b) (run_cmd e c).
+Proof.
+  intros b e c Hb. hinline. hsteps.
+  all: try (apply emits_at; apply cmd_init_conn).
+  all: match goal with Hi : w_inited ?w = true |- _ => apply load_ctx_at; intros x Hx end.
+  - apply cmd_config_conn.
+  - apply emits_at. apply cmd_add_conn.
+  - apply emits_at. apply cmd_rm_conn.
+  - apply cmd_commit_conn; assumption.
+  - apply emits_at. apply cmd_status_conn.
+  - apply cmd_branch_conn; try assumption.
+    destruct Hb as [Hb|Hb]; [left; exact Hb|]. right. cbn [is_rename] in Hb.
+    destruct rename as [|x0 r0]; [reflexivity|]. exfalso. apply Hb. discriminate.
+  - apply cmd_switch_conn; assumption.
+  - apply cmd_reset_conn; assumption.
+  - apply emits_at. apply cmd_restore_conn.
+  - apply cmd_update_ref_conn; assumption.
+  - apply emits_at. apply cmd_log_conn.
+  - apply emits_at. apply cmd_reflog_conn.
+  - apply emits_at. apply cmd_cat_file_conn.
+  - apply emits_at. apply cmd_hash_object_conn.
+  - apply emits_at. apply cmd_ls_files_conn.
+  - apply emits_at. apply cmd_rev_parse_conn.
+  - apply emits_at. apply cmd_write_tree_conn.
+Qed.
+
+(* ================================================================== *)
+(** * C. The theorems *)
+
+(** ** the empty world, user edits *)
+Lemma not_bad_empty : ~ Bad w_empty.
+Proof. intros [H|(id & p & H & _)]; discriminate H. Qed.
+
+Lemma good_empty : Good false w_empty.
+Proof.
+  split.
+  - constructor; cbn.
+    + constructor.
+    + constructor.
+    + intros id d H. discriminate H.
+    + intros id c H. discriminate H.
+    + intros id p H. discriminate H.
+    + constructor.
+    + split; intros c H; injection H as <-; constructor.
+    + right. reflexivity.
+  - right. left. reflexivity.
+Qed.
+
+Theorem connected_init : Connected w_empty.
+Proof. apply good_connected. apply good_empty. Qed.
+
+Lemma bad_set_wt : forall w f d, Bad (set_wt w f d) <-> Bad w.
+Proof. intros w f d. unfold Bad. cbn [set_wt w_coll w_objs]. tauto. Qed.
+
+Lemma good_set_wt : forall b w f d,
+  Forall (fun kv : bytes * bytes => valid_path (fst kv)) f -> Good b w -> Good b (set_wt w f d).
+Proof.
+  intros b w f d Hf [Hg Hh]. split.
+  - constructor.
+    + apply (g_refs w Hg).
+    + apply (g_idx w Hg).
+    + apply (g_trees w Hg).
+    + apply (g_commits w Hg).
+    + apply (g_named w Hg).
+    + exact Hf.
+    + apply (g_cfg w Hg).
+    + apply (g_init w Hg).
+  - exact Hh.
+Qed.
+
+Lemma edit_inv : forall b u w, edit_ok u -> CInv b w -> CInv b (apply_edit u w).
+Proof.
+  intros b u w Hok Hi. destruct u as [p d | p | p | p]; cbn [apply_edit].
+  - apply Inv_step.
+    + destruct (parent_dir p); [apply Inv_step; [exact Hi | intros _; exact Logic.I] | exact Hi].
+    + intros _. exact Hok.
+  - apply Inv_step; [exact Hi | intros _; exact Logic.I].
+  - intro Hnb. apply good_set_wt.
+    + assert (Hnb0 : ~ Bad w) by (intro X; apply Hnb; apply bad_set_wt; exact X).
+      destruct (Hi Hnb0) as [Hg _]. pose proof (g_wt w Hg) as Hwt. rewrite Forall_forall in Hwt.
+      apply Forall_forall. intros kv Hkv. apply filter_In in Hkv. apply Hwt. apply Hkv.
+    + apply Hi. intro X. apply Hnb. apply bad_set_wt. exact X.
+  - apply Inv_step; [exact Hi | intros _; exact Logic.I].
+Qed.
+
+(** ** fault-free runs: whatever the outcome, where the command stops *)
+(* a small weakest-precondition calculus for runs WITHOUT an injected fault;
+   unlike [hoare] it also speaks about the world in which a command that
+   reports an error stops.  Only used for the HEAD clause at the end of
+   [branch --rename]. *)
+Definition nf {A} (m : M A) (w : world) (Qok : A -> world -> Prop) (Qerr : world -> Prop) : Prop :=
+  forall t, match m (mkMS w t None) with
+            | (Ok a, s') => ms_fault s' = None /\ Qok a (ms_w s')
+            | (_, s') => Qerr (ms_w s')
+            end.
+
+Lemma nf_ret : forall A (a : A) w (Qok : A -> world -> Prop) Qerr, Qok a w -> nf (ret a) w Qok Qerr.
+Proof. intros A a w Qok Qerr H t. cbn. auto. Qed.
+Lemma nf_fail : forall A w (Qok : A -> world -> Prop) (Qerr : world -> Prop), Qerr w -> nf (@fail A) w Qok Qerr.
+Proof. intros A w Qok Qerr H t. cbn. exact H. Qed.
+Lemma nf_bind : forall A B (m : M A) (f : A -> M B) w (Qok : B -> world -> Prop) Qerr,
+  nf m w (fun a w' => nf (f a) w' Qok Qerr) Qerr -> nf (bind m f) w Qok Qerr.
+Proof.
+  intros A B m f w Qok Qerr H t. specialize (H t). unfold bind.
+  destruct (m (mkMS w t None)) as [[a| |] s']; [|exact H|exact H].
+  destruct H as [Hf Hk]. destruct s' as [w' t' fk]. cbn [ms_fault ms_w] in *. subst fk. apply Hk.
+Qed.
+Lemma nf_getw : forall w (Qok : world -> world -> Prop) Qerr, Qok w w -> nf getw w Qok Qerr.
+Proof. intros w Qok Qerr H t. cbn. auto. Qed.
+Lemma nf_guard : forall b w (Qok : unit -> world -> Prop) (Qerr : world -> Prop),
+  (b = true -> Qok tt w) -> (b = false -> Qerr w) -> nf (guard b) w Qok Qerr.
+Proof. intros b w Qok Qerr H1 H2 t. destruct b; cbn; auto. Qed.
+Lemma nf_of_opt : forall A (o : option A) w (Qok : A -> world -> Prop) (Qerr : world -> Prop),
+  (forall a, o = Some a -> Qok a w) -> (o = None -> Qerr w) -> nf (of_opt o) w Qok Qerr.
+Proof. intros A o w Qok Qerr H1 H2 t. destruct o; cbn; auto. Qed.
+Lemma nf_emit : forall e w (Qok : unit -> world -> Prop) Qerr,
+  Qok tt (apply_effect e w) -> nf (emit e) w Qok Qerr.
+Proof. intros e w Qok Qerr H t. cbn. auto. Qed.
+
+Ltac nfstep :=
+  lazymatch goal with
+  | |- nf (bind _ _) _ _ _ => apply nf_bind
+  | |- nf (ret _) _ _ _ => apply nf_ret
+  | |- nf fail _ _ _ => apply nf_fail
+  | |- nf getw _ _ _ => apply nf_getw
+  | |- nf (guard _) _ _ _ => apply nf_guard; intro
+  | |- nf (of_opt _) _ _ _ => apply nf_of_opt; [intros ? ? | intro]
+  | |- nf (emit _) _ _ _ => apply nf_emit
+  | |- nf (let _ := _ in _) _ _ _ => cbv zeta
+  | |- nf (match ?x with _ => _ end) _ _ _ => destruct x eqn:?; cbv beta iota
+  end.
+
+Lemma nf_load_ctx : forall w (Qok : ctx -> world -> Prop) (Qerr : world -> Prop),
+  (forall x, Qok x w) -> Qerr w -> nf load_ctx w Qok Qerr.
+Proof. intros w Qok Qerr H1 H2. unfold load_ctx. repeat nfstep; auto. Qed.
+
+Lemma HeadOk_renamed : forall w n W,
+  am_mem (w_refs w) (w_head w) = true ->
+  w_refs W = w_refs (apply_effect (ERenameRef (w_head w) n) w) -> w_head W = n -> HeadOk W.
+Proof.
+  intros w n W Hm Hr Hh. right. rewrite Hr, Hh. apply rename_then_mem. exact Hm.
+Qed.
+
+Lemma branch_rename_headok : forall e x args lst rename delete w,
+  rename <> [] -> HeadOk w ->
+  nf (cmd_branch e x args lst rename delete) w (fun _ => HeadOk) HeadOk.
+Proof.
+  intros e x args lst rename delete w Hne Hh.
+  destruct rename as [|r0 rename]; [contradiction|].
+  unfold cmd_branch. cbv zeta. cbn [is_nil negb].
+  destruct args as [|a [|a' l]]; destruct lst; destruct delete as [|d0 delete];
+    cbn [is_nil negb length Nat.eqb andb orb].
+  all: repeat nfstep; try assumption; try discriminate.
+  all: match goal with
+       | Hm : am_mem (w_refs ?w0) (w_head ?w0) = true |- context [ESetHead ?n] =>
+           apply (HeadOk_renamed w0 n _ Hm); autorewrite with wfields; reflexivity
+       end.
+Qed.
+
+Lemma rename_headok : forall e c w r w' tr,
+  is_rename c -> HeadOk w -> run_m (run_cmd e c) w = (r, w', tr) -> HeadOk w'.
+Proof.
+  intros e c w r w' tr Hc Hh Hrun.
+  destruct c; cbn [is_rename] in Hc; try contradiction.
+  assert (Hnf : nf (run_cmd e (CBranch args list_flag rename delete)) w (fun _ => HeadOk) HeadOk).
+  { unfold run_cmd. repeat nfstep; try assumption.
+    apply nf_load_ctx; [|assumption]. intro x. apply branch_rename_headok; assumption. }
+  specialize (Hnf []). unfold run_m in Hrun.
+  destruct (run_cmd e (CBranch args list_flag rename delete) (mkMS w [] None)) as [r0 s'].
+  injection Hrun as _ <- _. destruct r0; [apply Hnf | exact Hnf | exact Hnf].
+Qed.
+
+(** ** C.1  every action preserves the invariant *)
+Lemma is_rename_dec : forall c, is_rename c \/ ~ is_rename c.
+Proof.
+  intros c. destruct c; cbn [is_rename]; try (right; exact (fun f : False => f)).
+  destruct rename as [|x r]; [right; intro H; apply H; reflexivity | left; discriminate].
+Qed.
+
+Lemma cmd_inv : forall b e c w r w' tr, (b = true \/ ~ is_rename c) -> CInv b w ->
+  run_m (run_cmd e c) w = (r, w', tr) ->
+  CInv b w' /\ w' = apply_effects tr w /\ forall n, CInv b (apply_effects (firstn n tr) w).
+Proof.
+  intros b e c w r w' tr Hb Hi Hrun.
+  destruct (emits_sound (CInv b) (CG b) _ (run_cmd e c) w r w' tr (run_cmd_conn b e c Hb) Hi Hrun)
+    as (Hi' & Hw & _ & Hpre & _).
+  auto.
+Qed.
+
+Lemma CInv_weaken : forall w, CInv false w -> CInv true w.
+Proof. intros w Hi Hnb. destruct (Hi Hnb) as [Hg _]. split; [exact Hg | left; reflexivity]. Qed.
+
+Lemma CInv_head : forall w, CInv false w -> ~ Bad w -> HeadOk w.
+Proof. intros w Hi Hnb. destruct (Hi Hnb) as [_ [X|X]]; [discriminate X | exact X]. Qed.
+
+Theorem inv_step : forall a w, action_ok a -> CInv false w -> CInv false (step_w a w).
+Proof.
+  intros [e c|u] w Hok Hi.
+  - unfold step_w. cbn [step]. destruct (run_m (run_cmd e c) w) as [[r w'] tr] eqn:Erun.
+    assert (Hw' : CInv false w').
+    { destruct (is_rename_dec c) as [Hr|Hr].
+      - destruct (cmd_inv true e c w r w' tr (or_introl eq_refl) (CInv_weaken w Hi) Erun) as (Hi' & Hw & _).
+        intro Hnb'. destruct (Hi' Hnb') as [Hg _]. split; [exact Hg|]. right.
+        apply (rename_headok e c w r w' tr Hr); [|exact Erun].
+        apply CInv_head; [exact Hi|]. intro X. apply Hnb'. rewrite Hw. apply bad_sticky_trace. exact X.
+      - apply (cmd_inv false e c w r w' tr (or_intror Hr) Hi Erun). }
+    destruct r; exact Hw'.
+  - unfold step_w. cbn [step fst]. apply edit_inv; assumption.
+Qed.
+
+(* the strengthened invariant, in the positive form *)
+Theorem good_step : forall a w, action_ok a -> Good false w -> ~ Bad (step_w a w) -> Good false (step_w a w).
+Proof. intros a w Hok Hg Hnb. apply (inv_step a w Hok); [intros _; exact Hg | exact Hnb]. Qed.
+
+Theorem connected_step : forall a w, action_ok a -> Good false w -> ~ Bad (step_w a w) -> Connected (step_w a w).
+Proof. intros a w Hok Hg Hnb. apply good_connected. apply good_step; assumption. Qed.
+
+(** ** C.2  all histories *)
+Theorem inv_run : forall h w, Forall action_ok h -> CInv false w -> CInv false (run h w).
+Proof.
+  induction h as [|a h IH]; intros w Hall Hi; [exact Hi|].
+  inversion Hall as [|? ? Ha Hh]; subst. rewrite run_cons. apply IH; [exact Hh|]. apply inv_step; assumption.
+Qed.
+
+Theorem good_run : forall h, Forall action_ok h -> ~ Bad (run h w_empty) -> Good false (run h w_empty).
+Proof. intros h Hall Hnb. apply (inv_run h w_empty Hall); [intros _; exact good_empty | exact Hnb]. Qed.
+
+Theorem connected_run : forall h, Forall action_ok h -> ~ Bad (run h w_empty) -> Connected (run h w_empty).
+Proof. intros h Hall Hnb. apply good_connected. apply good_run; assumption. Qed.
+
+(* [Bad], spelled out and as a computable test *)
+Lemma not_bad_iff : forall w,
+  ~ Bad w <-> w_coll w = false /\ forall id p, st_lookup (w_objs w) id = Some p -> (lenN p < 2 ^ 63)%N.
+Proof.
+  intro w. unfold Bad. split.
+  - intro H. split.
+    + destruct (w_coll w); [exfalso; apply H; left; reflexivity | reflexivity].
+    + intros id p Hl. destruct (N.ltb (lenN p) (2 ^ 63)) eqn:E; [apply N.ltb_lt in E; exact E|].
+      apply N.ltb_ge in E. exfalso. apply H. right. exists id, p. split; assumption.
+  - intros [Hc Hs] [H|(id & p & Hl & Hb)]; [rewrite Hc in H; discriminate H|].
+    specialize (Hs id p Hl). lia.
+Qed.
+
+Definition bad_b (w : world) : bool :=
+  w_coll w || existsb (fun kv => N.leb (2 ^ 63) (lenN (snd kv))) (w_objs w).
+
+Lemma st_lookup_In : forall st id p, st_lookup st id = Some p -> exists k, In (k, p) st.
+Proof.
+  induction st as [|[k v] r IH]; intros id p H; cbn [st_lookup] in H; [discriminate H|].
+  destruct (bytes_eqb k id).
+  - injection H as <-. exists k. left. reflexivity.
+  - destruct (IH _ _ H) as [k' Hk]. exists k'. right. exact Hk.
+Qed.
+
+Lemma bad_b_false : forall w, bad_b w = false -> ~ Bad w.
+Proof.
+  intros w H. unfold bad_b in H. apply orb_false_elim in H. destruct H as [Hc He].
+  intros [X|(id & p & Hl & Hb)]; [rewrite Hc in X; discriminate X|].
+  destruct (st_lookup_In _ _ _ Hl) as [k Hk].
+  assert (Ht : existsb (fun kv => N.leb (2 ^ 63) (lenN (snd kv))) (w_objs w) = true).
+  { apply existsb_exists. exists (k, p). split; [exact Hk|]. apply N.leb_le. exact Hb. }
+  rewrite Ht in He. discriminate He.
+Qed.
+
+(** ** C.6  no branch points to a commit lacking its snapshot or a parent *)
+Theorem refs_commits : forall w, Connected w -> forall n id, am_get (w_refs w) n = Some id ->
+  exists c, get_commit (w_objs w) id = Some c /\ tree_ok (w_objs w) (c_tree c) /\
+            Forall (commit_ok (w_objs w)) (c_parents c).
+Proof.
+  intros w (Hrefs & _ & _ & [_ Hcl] & _) n id H. destruct (Hrefs n id H) as [c Hc].
+  exists c. split; [exact Hc|]. apply (Hcl id c Hc).
+Qed.
+
+(** ** C.3  crash consistency: every prefix of the effects of every command *)
+Lemma prefix_not_bad : forall tr w k, ~ Bad (apply_effects tr w) -> ~ Bad (apply_effects (firstn k tr) w).
+Proof.
+  intros tr w k Hnb X. apply Hnb. rewrite <- (firstn_skipn k tr) at 1.
+  rewrite apply_effects_app. apply bad_sticky_trace. exact X.
+Qed.
+
+Theorem crash_safe : forall e c w r w' tr k,
+  CInv false w -> run_m (run_cmd e c) w = (r, w', tr) -> ~ Bad w' ->
+  ConnectedNoHead (apply_effects (firstn k tr) w) /\
+  (~ is_rename c -> Connected (apply_effects (firstn k tr) w)).
+Proof.
+  intros e c w r w' tr k Hi Hrun Hnb.
+  destruct (cmd_inv true e c w r w' tr (or_introl eq_refl) (CInv_weaken w Hi) Hrun) as (_ & Hw & Hpre).
+  assert (Hnbk : ~ Bad (apply_effects (firstn k tr) w)) by (apply prefix_not_bad; rewrite <- Hw; exact Hnb).
+  split.
+  - destruct (Hpre k Hnbk) as [Hg _]. apply good_connected_nh. exact Hg.
+  - intro Hr. destruct (cmd_inv false e c w r w' tr (or_intror Hr) Hi Hrun) as (_ & _ & Hpre').
+    apply good_connected. apply (Hpre' k Hnbk).
+Qed.
+
+(** ** C.5  one injected failure *)
+Theorem fault_safe : forall e c w k r s',
+  CInv false w -> run_cmd e c (mkMS w [] (Some k)) = (r, s') -> ~ Bad (ms_w s') ->
+  ConnectedNoHead (ms_w s') /\
+  (~ is_rename c -> Connected (ms_w s')) /\
+  (forall r0 w0 tr, run_m (run_cmd e c) w = (r0, w0, tr) -> k < length tr ->
+     r = Err /\ ms_w s' = apply_effects (firstn k tr) w).
+Proof.
+  intros e c w k r s' Hi Hrun Hnb. split; [|split].
+  - destruct (emits_sound_fault (CInv true) (CG true) _ (run_cmd e c) w k r s'
+                (run_cmd_conn true e c (or_introl eq_refl)) (CInv_weaken w Hi) Hrun) as (Hi' & _).
+    destruct (Hi' Hnb) as [Hg _]. apply good_connected_nh. exact Hg.
+  - intro Hr.
+    destruct (emits_sound_fault (CInv false) (CG false) _ (run_cmd e c) w k r s'
+                (run_cmd_conn false e c (or_intror Hr)) Hi Hrun) as (Hi' & _).
+    apply good_connected. apply (Hi' Hnb).
+  - intros r0 w0 tr Hrun0 Hk. rewrite (cmd_fault_prefix e c w r0 w0 tr k Hrun0 Hk) in Hrun.
+    injection Hrun as <- <-. split; reflexivity.
+Qed.
+
+(* in the terms of [Inv.ConnectedOrCollided] *)
+Theorem run_connected_or_collided : forall h, Forall action_ok h ->
+  (forall id p, st_lookup (w_objs (run h w_empty)) id = Some p -> (lenN p < 2 ^ 63)%N) ->
+  ConnectedOrCollided (run h w_empty).
+Proof.
+  intros h Hall Hs. destruct (w_coll (run h w_empty)) eqn:E; [left; exact E|].
+  right. apply connected_run; [exact Hall|]. apply not_bad_iff. split; assumption.
+Qed.
+
+(* the same for the worlds of [Inv.Reachable], with [Bad] spelled out *)
+Theorem reachable_connected : forall w, Reachable w ->
+  w_coll w = false -> (forall id p, st_lookup (w_objs w) id = Some p -> (lenN p < 2 ^ 63)%N) ->
+  Connected w.
+Proof.
+  intros w (h & Hall & ->) Hc Hs. apply connected_run; [exact Hall|]. apply not_bad_iff. split; assumption.
+Qed.
+
+Corollary reachable_crash_safe : forall h e c r w' tr k,
+  Forall action_ok h -> run_m (run_cmd e c) (run h w_empty) = (r, w', tr) -> ~ Bad w' ->
+  ConnectedNoHead (apply_effects (firstn k tr) (run h w_empty)) /\
+  (~ is_rename c -> Connected (apply_effects (firstn k tr) (run h w_empty))).
+Proof.
+  intros h e c r w' tr k Hall Hrun Hnb. apply (crash_safe e c _ r w' tr k); [|exact Hrun|exact Hnb].
+  apply inv_run; [exact Hall | intros _; exact good_empty].
+Qed.
+
+Corollary reachable_fault_safe : forall h e c k r s',
+  Forall action_ok h -> run_cmd e c (mkMS (run h w_empty) [] (Some k)) = (r, s') -> ~ Bad (ms_w s') ->
+  ConnectedNoHead (ms_w s') /\ (~ is_rename c -> Connected (ms_w s')) /\
+  (forall r0 w0 tr, run_m (run_cmd e c) (run h w_empty) = (r0, w0, tr) -> k < length tr ->
+     r = Err /\ ms_w s' = apply_effects (firstn k tr) (run h w_empty)).
+Proof.
+  intros h e c k r s' Hall Hrun Hnb. apply (fault_safe e c _ k r s'); [|exact Hrun|exact Hnb].
+  apply inv_run; [exact Hall | intros _; exact good_empty].
+Qed.
+
+(** ** computable side conditions for concrete histories *)
+Definition valid_comp_b (c : bytes) : bool :=
+  negb (is_nil c) && negb (contains_byte c_slash c) && negb (contains_byte c_nul c).
+Definition valid_path_b (p : bytes) : bool := forallb valid_comp_b (split_all c_slash p).
+Definition action_ok_b (a : action) : bool :=
+  match a with AEdit (UWrite p _) => valid_path_b p | _ => true end.
+
+Lemma valid_path_b_ok : forall p, valid_path_b p = true -> valid_path p.
+Proof.
+  intros p H. unfold valid_path_b in H. rewrite forallb_forall in H. apply Forall_forall. intros c Hc.
+  specialize (H c Hc). unfold valid_comp_b in H.
+  apply andb_prop in H. destruct H as [H H3]. apply andb_prop in H. destruct H as [H1 H2].
+  apply negb_true_iff in H1, H2, H3. split; [|split].
+  - intro X. subst c. discriminate H1.
+  - apply contains_byte_false. exact H2.
+  - apply contains_byte_false. exact H3.
+Qed.
+
+Lemma action_ok_b_ok : forall h, forallb action_ok_b h = true -> Forall action_ok h.
+Proof.
+  intros h H. rewrite forallb_forall in H. apply Forall_forall. intros a Ha. specialize (H a Ha).
+  destruct a as [e c|u]; [exact Logic.I|]. destruct u; try exact Logic.I.
+  apply valid_path_b_ok. exact H.
+Qed.
+
+Lemma step_w_cmd : forall e c w, step_w (ACmd e c) w = snd (fst (run_m (run_cmd e c) w)).
+Proof.
+  intros e c w. unfold step_w. cbn [step]. destruct (run_m (run_cmd e c) w) as [[r w'] tr].
+  destruct r; reflexivity.
+Qed.
+Lemma step_trace_cmd : forall e c w, snd (step (ACmd e c) w) = snd (run_m (run_cmd e c) w).
+Proof.
+  intros e c w. cbn [step]. destruct (run_m (run_cmd e c) w) as [[r w'] tr]. destruct r; reflexivity.
+Qed.
+
+(** ** C.4, C.7 and the counterexamples: concrete histories *)
+Section Examples.
+  Local Open Scope string_scope.
+  Definition ex_env : env := mkEnv 1700000000 0.
+
+  (* one commit on [main] *)
+  Definition ex_hist0 : list action :=
+    [ ACmd ex_env CInit;
+      ACmd ex_env (CConfig false [str "user.name"; str "A"]);
+      ACmd ex_env (CConfig false [str "user.email"; str "a@b.cd"]);
+      AEdit (UWrite (str "f.txt") (str "hello"));
+      ACmd ex_env (CAdd [str "f.txt"]);
+      ACmd ex_env (CCommit (str "first")) ].
+
+  (* two commits, a second branch, HEAD on it *)
+  Definition ex_hist1 : list action :=
+    (ex_hist0 ++
+     [ AEdit (UWrite (str "d/g.txt") (str "world"));
+       ACmd ex_env (CAdd [str "d/g.txt"]);
+       ACmd ex_env (CCommit (str "second"));
+       ACmd ex_env (CBranch [str "dev"] false [] []);
+       ACmd ex_env (CSwitch [str "dev"] []) ])%list.
+
+  (* the worlds these histories end in, computed once *)
+  Definition ex_w0 : world := Eval vm_compute in run ex_hist0 w_empty.
+  Definition ex_w1 : world := Eval vm_compute in run ex_hist1 w_empty.
+  Lemma ex_w0_run : run ex_hist0 w_empty = ex_w0.
+  Proof. vm_compute. reflexivity. Qed.
+  Lemma ex_w1_run : run ex_hist1 w_empty = ex_w1.
+  Proof. vm_compute. reflexivity. Qed.
+
+  Lemma ex_w0_good : Good false ex_w0.
+  Proof.
+    rewrite <- ex_w0_run. apply good_run.
+    - apply action_ok_b_ok. vm_compute. reflexivity.
+    - rewrite ex_w0_run. apply bad_b_false. vm_compute. reflexivity.
+  Qed.
+
+  (* C.7  the theorems are not vacuous: a history with two commits (the
+     second has the first as its only parent), two branches and two staged
+     files ends in a world that is not [Bad], and [connected_run] applies *)
+  Example nonvacuous :
+    run ex_hist1 w_empty = ex_w1 /\
+    w_coll ex_w1 = false /\ length (w_objs ex_w1) = 7 /\
+    map fst (w_refs ex_w1) = [str "dev"; str "main"] /\
+    w_head ex_w1 = str "dev" /\ length (idx_of ex_w1) = 2 /\
+    match am_get (w_refs ex_w1) (w_head ex_w1) with
+    | Some id2 =>
+        match get_commit (w_objs ex_w1) id2 with
+        | Some c2 =>
+            match c_parents c2 with
+            | [id1] => match get_commit (w_objs ex_w1) id1 with Some c1 => c_parents c1 = [] | None => False end
+            | _ => False
+            end
+        | None => False
+        end
+    | None => False
+    end /\
+    Connected ex_w1.
+  Proof.
+    split; [exact ex_w1_run|]. do 6 (split; [vm_compute; reflexivity|]).
+    rewrite <- ex_w1_run. apply connected_run.
+    - apply action_ok_b_ok. vm_compute. reflexivity.
+    - rewrite ex_w1_run. apply bad_b_false. vm_compute. reflexivity.
+  Qed.
+
+  (* C.4  the crash window of [branch --rename] (finding K8): the branch file
+     is renamed first and HEAD is rewritten second; after the first of the two
+     effects HEAD names a branch that does not exist.  Before the command and
+     after it the repository is connected. *)
+  Definition ex_rename : cmd := CBranch [] false (str "trunk") [].
+
+  Theorem crash_window_rename_refuted :
+    exists w e c,
+      is_rename c /\ Connected w /\
+      ~ Bad (step_w (ACmd e c) w) /\ Connected (step_w (ACmd e c) w) /\
+      ~ HeadOk (apply_effects (firstn 1 (snd (step (ACmd e c) w))) w) /\
+      ~ Connected (apply_effects (firstn 1 (snd (step (ACmd e c) w))) w).
+  Proof.
+    exists ex_w0, ex_env, ex_rename.
+    assert (Hnb : ~ Bad (step_w (ACmd ex_env ex_rename) ex_w0)).
+    { apply bad_b_false. vm_compute. reflexivity. }
+    assert (Hh : ~ HeadOk (apply_effects (firstn 1 (snd (step (ACmd ex_env ex_rename) ex_w0))) ex_w0)).
+    { unfold HeadOk. vm_compute. intros [H|H]; discriminate H. }
+    split; [discriminate|].
+    split; [apply good_connected; exact ex_w0_good|].
+    split; [exact Hnb|].
+    split; [apply connected_step; [exact Logic.I | exact ex_w0_good | exact Hnb]|].
+    split; [exact Hh|]. intro Hc. apply Hh. apply connected_split in Hc. apply Hc.
+  Qed.
+
+  (* why [action_ok] is needed: a file name containing NUL (which no file
+     system allows) is written into a tree that Goit's own reader rejects *)
+  Definition ex_nul : bytes := [x61; x00; x62].
+  Definition ex_hist_nul : list action :=
+    [ ACmd ex_env CInit;
+      ACmd ex_env (CConfig false [str "user.name"; str "A"]);
+      ACmd ex_env (CConfig false [str "user.email"; str "a@b.cd"]);
+      AEdit (UWrite ex_nul (str "hello"));
+      ACmd ex_env (CAdd [ex_nul]);
+      ACmd ex_env (CCommit (str "first")) ].
+  Definition ex_wn : world := Eval vm_compute in run ex_hist_nul w_empty.
+
+  (* the tree of the commit HEAD resolves to *)
+  Definition root_of (w : world) : bytes :=
+    match am_get (w_refs w) (w_head w) with
+    | Some id => match get_commit (w_objs w) id with Some c => c_tree c | None => [] end
+    | None => []
+    end.
+  Definition tree_of (w : world) : bytes :=
+    match get_kind (w_objs w) KTree (root_of w) with Some d => d | None => [] end.
+  Definition ex_nul_tree : bytes := Eval vm_compute in tree_of ex_wn.
+
+  Example nul_path_not_connected :
+    run ex_hist_nul w_empty = ex_wn /\ ~ Bad ex_wn /\ ~ Connected ex_wn.
+  Proof.
+    split; [vm_compute; reflexivity|].
+    split; [apply bad_b_false; vm_compute; reflexivity|].
+    assert (E : get_kind (w_objs ex_wn) KTree (root_of ex_wn) = Some ex_nul_tree) by (vm_compute; reflexivity).
+    assert (P : parse_tree_items (S (length ex_nul_tree)) ex_nul_tree = None) by (vm_compute; reflexivity).
+    intros (_ & _ & _ & [Ht _] & _). destruct (Ht _ _ E) as (items & Hp & _).
+    rewrite P in Hp. discriminate Hp.
+  Qed.
+End Examples.
+
+(* ================================================================== *)
+Print Assumptions Inv_step.
+Print Assumptions run_cmd_conn.
+Print Assumptions connected_init.
+Print Assumptions connected_step.
+Print Assumptions connected_run.
+Print Assumptions reachable_connected.
+Print Assumptions run_connected_or_collided.
+Print Assumptions crash_safe.
+Print Assumptions fault_safe.
+Print Assumptions refs_commits.
+Print Assumptions crash_window_rename_refuted.
+Print Assumptions nonvacuous.
+Print Assumptions nul_path_not_connected.
